@@ -1,9 +1,60 @@
 package checks
 
 import (
+	"crypto/md5"
+	"encoding/hex"
 	"testing"
+	"time"
 
 	"verif/mc/h"
+	w "verif/mc/world"
 )
 
-func c05World(t *testing.T, run *h.Run) (int64, int64) { return 0, 0 }
+// c05World: timed BFS of a canary around the end of its duration (20 s) and of the no-restart window (10 s):
+// clock ticks of 5 and 10 s are always enabled, so the reconciles, a restart, pause/unpause/validate/fail and the
+// failing replica-set sync happen in every order relative to the two thresholds; monitor = the promotion rule.
+func c05World(t *testing.T, run *h.Run) (int64, int64) {
+	horizon := 40 * time.Second
+	budget := 1
+	if h.Thorough() {
+		horizon = 60 * time.Second
+		budget = 2
+	}
+	// canonical names of the canary replica set and its pod (functions of namespace and template)
+	tb := w.Tpl("B")
+	sum := md5.Sum([]byte("ns/" + w.TemplateHash(&tb)))
+	canaryRS := "foo-" + hex.EncodeToString(sum[:])[:6]
+	canaryPod := "ns/" + canaryRS + "-n1"
+	mk := func(name, mode string, dev *w.Alpha) scOpt {
+		dev.FreeTicks = []int{10}
+		dev.OnlyERS = []string{canaryRS} // the active replica set plays no part in the promotion decision
+		d, nr := 20*time.Second, 10*time.Second
+		if mode == "manual" {
+			d, nr = 0, 0
+		}
+		return scOpt{name: name, nodes: []string{"n1", "n2"}, noFreq0: true,
+			eds: []w.EDSOpt{w.WithFrequency(10 * time.Second), w.WithCanary("1", d, nr, mode), w.WithAuto(true, 1, true, 2)},
+			// the exploration starts when the canary pod runs on its node
+			first: []w.Event{evb("setTemplate", edsKey, "B"), ev("R_eds", edsKey), ev("R_eds", edsKey), ev("R_ers", "ns/"+canaryRS), ev("ready", canaryPod)},
+			alpha: dev, budget: budget, mons: []func(*w.MonCtx){w.MonC05, w.MonC07}}
+	}
+	scs := []scOpt{
+		mk("S3-timed-auto-restart", "auto", &w.Alpha{PodDev: []string{"restart:1", "restart:3"}}),
+		mk("S3-timed-auto-commands", "auto", &w.Alpha{Kubectl: []string{"canary-pause", "canary-unpause", "canary-validate", "canary-fail"}}),
+		mk("S3-timed-manual", "manual", &w.Alpha{Kubectl: []string{"canary-validate", "canary-pause"}}),
+	}
+	var states, trans int64
+	for _, o := range scs {
+		sc := mkScenario(t, o)
+		start := sc.Init[0].Now
+		sc.Prune = func(s *w.State) bool { return s.Now > start+horizon }
+		ex := explore(t, run, sc, 0)
+		states += int64(ex.States)
+		trans += ex.Transitions
+		if run.HasUnknownViolation() {
+			break
+		}
+	}
+	requireAntecedents(run, "C05/active-changed")
+	return states, trans
+}
